@@ -16,13 +16,13 @@ def modifier_cases(tier):
     length 0..3 (with repeats) x factor x 1-2 terms"""
     base = [[["H", "H"], ["H2"]], [["H2", "e-"], ["H", "H", "e-"]]]
     sp = ["H", "H2", "e-"]
-    factors = ["f", "-2.0 * f", "a+b"]
+    factors = ["f", "-2.0 * f", "a+b", "-a + b", "-(a) - b*c"]
     deps = [()]
     for n in (1, 2, 3):
         deps += list(itertools.product(sp, repeat=n))
     if tier == "quick":
         targets = ["H"]
-        facs = ["a+b"]
+        facs = ["a+b", "-a + b"]
     else:
         targets = sp
         facs = factors
